@@ -15,6 +15,7 @@
 import AdaptixModel.Conv.CoerceSpec
 import AdaptixProofs.Lemmas.CoerceSpecSound
 import AdaptixProofs.Lemmas.CoerceBuiltin
+import AdaptixProofs.Lemmas.CoerceWitness
 
 namespace Adaptix.Conv.C14
 
@@ -85,24 +86,30 @@ theorem scalars_not_coerced (cfg : Cfg) (a b : Nat) (hsa : cfg.shape a [] = none
   exact runRecipe_all_skip _ (step_scalars hsa hne hsub)
 
 /-- **Iterables are converted element-wise only when the element types are coercible**
-    (builtin recipe: the iterable provider answers before any as-is provider). -/
+    (builtin recipe: the iterable provider answers before any as-is provider) — and the produced
+    closure *is* the element-wise map of the element coercer into the destination's factory. -/
 theorem iterable_elementwise (cfg : Cfg) (hrecipe : cfg.recipe = builtinRecipe) (src dst a b : Ty)
     (f : Conc) (hs : parseIterSrc src = some a) (hd : parseIterDst dst = some (f, b)) (n : Nat)
     (c : Coercer) (h : provide cfg (n + 1) src dst = .ok c) :
-    ∃ ce, provide cfg n a b = .ok ce ∧ c.kind = .iterable :=
+    ∃ ce, provide cfg n a b = .ok ce ∧ c.kind = .iterable ∧ c.run = iterRun f ce.run :=
   builtin_iterable hrecipe hs hd h
 
 /-- same for dicts: key and value types must both be coercible -/
 theorem dict_elementwise (cfg : Cfg) (hrecipe : cfg.recipe = builtinRecipe) (src dst sk sv dk dv : Ty)
     (hs : parseDictSrc src = some (sk, sv)) (hd : parseDictDst dst = some (dk, dv)) (n : Nat)
     (c : Coercer) (h : provide cfg (n + 1) src dst = .ok c) :
-    ∃ kc vc, provide cfg n sk dk = .ok kc ∧ provide cfg n sv dv = .ok vc ∧ c.kind = .dict :=
+    ∃ kc vc, provide cfg n sk dk = .ok kc ∧ provide cfg n sv dv = .ok vc ∧ c.kind = .dict ∧
+      c.run = dictRun kc.run vc.run :=
   builtin_dict hrecipe hs hd h
 
-/-- same for `Optional`: the wrapped types must be coercible -/
+/-- same for `Optional`: the wrapped types must be coercible; the result is the as-is stub exactly when the
+    wrapped coercer is the stub, otherwise `None ↦ None`, `x ↦ inner(x)` -/
 theorem optional_elementwise (cfg : Cfg) (hrecipe : cfg.recipe = builtinRecipe) (src dst a b : Ty)
     (hs : IsOptionalOf src a) (hd : IsOptionalOf dst b) (ha : a ≠ .none) (hb : b ≠ .none) (n : Nat)
-    (c : Coercer) (h : provide cfg (n + 1) src dst = .ok c) : ∃ ce, provide cfg n a b = .ok ce :=
+    (c : Coercer) (h : provide cfg (n + 1) src dst = .ok c) :
+    ∃ ce, provide cfg n a b = .ok ce ∧
+      ((ce.isAsIs = true ∧ c = asIsCoercer) ∨
+       (ce.isAsIs = false ∧ c.kind = .optional ∧ c.run = optionalRun ce.run)) :=
   builtin_optional hrecipe hs hd ha hb h
 
 /-- **The answer does not depend on the fuel** once it is not `outOfFuel`: the fuel only
@@ -110,6 +117,140 @@ theorem optional_elementwise (cfg : Cfg) (hrecipe : cfg.recipe = builtinRecipe) 
 theorem fuel_irrelevant (cfg : Cfg) (n m : Nat) (src dst : Ty) (hnm : n ≤ m)
     (hne : provide cfg n src dst ≠ .outOfFuel) : provide cfg m src dst = provide cfg n src dst :=
   provide_stable_le cfg hne m hnm
+
+/-! ### Witnesses: every hypothesis of the theorems above is satisfiable, together, on concrete data
+
+  `wCfg p` (Lemmas/CoerceWitness.lean): object / int / bool ⊂ int / str, models `S{x: bool, z: str}`,
+  `D{x: int, y: int = 0}`, `S2(S){…, w: int}`; `wSem` interprets the opaque types.  `wCfg_ok` proves
+  `WorldOk (wCfg p) wSem` — all six assumptions on the class table at once. -/
+
+/-- **the documented relation is not the total relation** (any class table): unrelated scalar classes are
+    not `Coercible` — so `accepted_documented` says something and `refused_outside_relation` has instances -/
+theorem relation_excludes_scalars (cfg : Cfg) (a b : Nat) (hsa : cfg.shape a [] = none) (hne : a ≠ b)
+    (hsub : cfg.sub a b = false) : ¬ Coercible cfg (.cls a []) (.cls b []) :=
+  not_coercible_scalars cfg a b hsa hne hsub
+
+theorem worldOk_witness (p : Policy) : WorldOk (wCfg p) wSem := wCfg_ok p
+
+/-- `soundness` with all hypotheses discharged: `List[S] -> Tuple[D, ...]` under `allow_unlinked_optional`,
+    applied to a list holding an instance of the *subclass* `S2`; the conclusion is the theorem's, the
+    computed result is shown by the `example` below. -/
+theorem soundness_witness :
+    ∃ c, provide (wCfg .allowAll) 8 (.iter .list (.cls 20 [])) (.iter .tuple (.cls 21 [])) = .ok c ∧
+      WorldOk (wCfg .allowAll) wSem ∧
+      HasTy (wCfg .allowAll) wSem (.iter .list (.cls 20 [])) (.seq .list [wS2Val, wS2Val]) ∧
+      ∃ w, c.run (.seq .list [wS2Val, wS2Val]) = some w ∧ HasTy (wCfg .allowAll) wSem (.iter .tuple (.cls 21 [])) w := by
+  have hv : HasTy (wCfg .allowAll) wSem (.iter .list (.cls 20 [])) (.seq .list [wS2Val, wS2Val]) :=
+    .iter (by decide) (by
+      intro x hx
+      simp only [List.mem_cons, List.not_mem_nil, or_false, or_self] at hx
+      subst hx
+      exact wS2Val_hasTy _)
+  have hk : (provide (wCfg .allowAll) 8 (.iter .list (.cls 20 [])) (.iter .tuple (.cls 21 []))).kind? = some .iterable := by
+    decide
+  cases h : provide (wCfg .allowAll) 8 (.iter .list (.cls 20 [])) (.iter .tuple (.cls 21 [])) with
+  | ok c => exact ⟨c, rfl, wCfg_ok _, hv, soundness _ _ (wCfg_ok _) 8 _ _ c h _ hv⟩
+  | notFound => rw [h] at hk; cases hk
+  | outOfFuel => rw [h] at hk; cases hk
+
+example : (provide (wCfg .allowAll) 8 (.iter .list (.cls 20 [])) (.iter .tuple (.cls 21 []))).run?
+    (.seq .list [wS2Val, wS2Val]) =
+      some (.seq .tuple [.obj 21 [(0, .atom 10 1), (1, .atom 9 0)], .obj 21 [(0, .atom 10 1), (1, .atom 9 0)]]) := by rfl
+
+/-- `asis_documented` / `asis_unchanged` / `asIs_relation_sound`: `bool -> int` is answered by the stub, the
+    documented relation holds for the pair, and `True` stays an instance of the destination -/
+theorem asis_witness :
+    ∃ c, provide (wCfg .builtin) 8 wBool wInt = .ok c ∧ c.isAsIs = true ∧
+      AsIs (wCfg .builtin).sub wBool wInt ∧ c.run (.atom 10 1) = some (.atom 10 1) ∧
+      HasTy (wCfg .builtin) wSem wInt (.atom 10 1) := by
+  have hk : (provide (wCfg .builtin) 8 wBool wInt).kind? = some .asIs := by decide
+  cases h : provide (wCfg .builtin) 8 wBool wInt with
+  | ok c =>
+    have hc : c.isAsIs = true := by
+      rw [h] at hk
+      simp only [Answer.kind?, Option.some.injEq] at hk
+      simp [Coercer.isAsIs, hk]
+    have hrel := asis_documented _ 8 _ _ c h hc
+    exact ⟨c, rfl, hc, hrel, asis_unchanged _ _ (wCfg_ok _) 8 _ _ c h hc _,
+      asIs_relation_sound _ _ (wCfg_ok _) _ _ hrel _ (.plain rfl rfl)⟩
+  | notFound => rw [h] at hk; cases hk
+  | outOfFuel => rw [h] at hk; cases hk
+
+/-- `accepted_documented` on a model pair: the accepted pair `S2 -> D` is in the documented relation -/
+theorem accepted_documented_witness :
+    ∃ c, provide (wCfg .allowAll) 8 (.cls 22 []) (.cls 21 []) = .ok c ∧
+      Coercible (wCfg .allowAll) (.cls 22 []) (.cls 21 []) := by
+  have hk : (provide (wCfg .allowAll) 8 (.cls 22 []) (.cls 21 [])).kind? = some .model := by decide
+  cases h : provide (wCfg .allowAll) 8 (.cls 22 []) (.cls 21 []) with
+  | ok c => exact ⟨c, rfl, accepted_documented _ 8 _ _ c h⟩
+  | notFound => rw [h] at hk; cases hk
+  | outOfFuel => rw [h] at hk; cases hk
+
+/-- `refused_outside_relation`: its hypothesis holds for `int -> str` (and for `List[int] -> List[str]` the
+    model refuses, see the examples) -/
+theorem refused_outside_relation_witness (p : Policy) (n : Nat) :
+    ¬ Coercible (wCfg p) wInt wStr ∧ ∀ c, provide (wCfg p) n wInt wStr ≠ .ok c :=
+  have h := relation_excludes_scalars (wCfg p) 9 11 rfl (by decide) rfl
+  ⟨h, refused_outside_relation _ n _ _ h⟩
+
+/-- `unlinked_refused`, both branches of its hypothesis: `S -> D` under the default policy (the optional
+    `y` has no source) and `S -> S2` under `allow_unlinked_optional` (the *required* `w` has no source) -/
+theorem unlinked_refused_witness (n : Nat) (c : Coercer) :
+    provide (wCfg .builtin) n (.cls 20 []) (.cls 21 []) ≠ .ok c ∧
+    provide (wCfg .allowAll) n (.cls 20 []) (.cls 22 []) ≠ .ok c :=
+  ⟨unlinked_refused (wCfg .builtin) rfl 20 21 [] [] _ _ rfl rfl ⟨1, wInt, false⟩ (by simp)
+      (by intro s hs; simp only [List.mem_cons, List.not_mem_nil, or_false] at hs; rcases hs with rfl | rfl <;> decide)
+      (.inr rfl) n c,
+   unlinked_refused (wCfg .allowAll) rfl 20 22 [] [] _ _ rfl rfl ⟨3, wInt, true⟩ (by simp)
+      (by intro s hs; simp only [List.mem_cons, List.not_mem_nil, or_false] at hs; rcases hs with rfl | rfl <;> decide)
+      (.inl rfl) n c⟩
+
+theorem scalars_not_coerced_witness (p : Policy) (n : Nat) : provide (wCfg p) (n + 1) wInt wStr = .notFound :=
+  scalars_not_coerced (wCfg p) 9 11 rfl (by decide) rfl n
+
+/-- `iterable_elementwise` / `dict_elementwise` / `optional_elementwise` / `fuel_irrelevant` with their
+    hypotheses discharged (`List[bool] -> Tuple[int, ...]`, `Dict[str, bool] -> Mapping[str, int]`,
+    `Optional[List[bool]] -> Optional[Tuple[int, ...]]`) -/
+theorem elementwise_witness :
+    (∃ c ce, provide (wCfg .builtin) 5 (.iter .list wBool) (.iter .tuple wInt) = .ok c ∧
+      provide (wCfg .builtin) 4 wBool wInt = .ok ce ∧ c.run = iterRun .tuple ce.run) ∧
+    (∃ c kc vc, provide (wCfg .builtin) 5 (.map .dict wStr wBool) (.map .mapping wStr wInt) = .ok c ∧
+      provide (wCfg .builtin) 4 wStr wStr = .ok kc ∧ provide (wCfg .builtin) 4 wBool wInt = .ok vc ∧
+      c.run = dictRun kc.run vc.run) ∧
+    (∃ c ce, provide (wCfg .builtin) 5 (.union [.iter .list wBool, .none]) (.union [.iter .tuple wInt, .none]) = .ok c ∧
+      provide (wCfg .builtin) 4 (.iter .list wBool) (.iter .tuple wInt) = .ok ce ∧ c.run = optionalRun ce.run) ∧
+    provide (wCfg .builtin) 50 (.iter .list wBool) (.iter .tuple wInt) =
+      provide (wCfg .builtin) 5 (.iter .list wBool) (.iter .tuple wInt) := by
+  refine ⟨?_, ?_, ?_, ?_⟩
+  · have hk : (provide (wCfg .builtin) 5 (.iter .list wBool) (.iter .tuple wInt)).kind? = some .iterable := by decide
+    cases h : provide (wCfg .builtin) 5 (.iter .list wBool) (.iter .tuple wInt) with
+    | ok c =>
+      obtain ⟨ce, h1, _, h3⟩ := iterable_elementwise (wCfg .builtin) rfl _ _ wBool wInt .tuple rfl rfl 4 c h
+      exact ⟨c, ce, rfl, h1, h3⟩
+    | notFound => rw [h] at hk; cases hk
+    | outOfFuel => rw [h] at hk; cases hk
+  · have hk : (provide (wCfg .builtin) 5 (.map .dict wStr wBool) (.map .mapping wStr wInt)).kind? = some .dict := by decide
+    cases h : provide (wCfg .builtin) 5 (.map .dict wStr wBool) (.map .mapping wStr wInt) with
+    | ok c =>
+      obtain ⟨kc, vc, h1, h2, _, h4⟩ := dict_elementwise (wCfg .builtin) rfl _ _ wStr wBool wStr wInt rfl rfl 4 c h
+      exact ⟨c, kc, vc, rfl, h1, h2, h4⟩
+    | notFound => rw [h] at hk; cases hk
+    | outOfFuel => rw [h] at hk; cases hk
+  · have hk : (provide (wCfg .builtin) 5 (.union [.iter .list wBool, .none]) (.union [.iter .tuple wInt, .none])).kind?
+        = some .optional := by decide
+    cases h : provide (wCfg .builtin) 5 (.union [.iter .list wBool, .none]) (.union [.iter .tuple wInt, .none]) with
+    | ok c =>
+      obtain ⟨ce, h1, h2⟩ := optional_elementwise (wCfg .builtin) rfl _ _ (.iter .list wBool) (.iter .tuple wInt)
+        (.left _) (.left _) (by intro e; cases e) (by intro e; cases e) 4 c h
+      rcases h2 with ⟨_, rfl⟩ | ⟨_, _, h5⟩
+      · rw [h] at hk; cases hk
+      · exact ⟨c, ce, rfl, h1, h5⟩
+    | notFound => rw [h] at hk; cases hk
+    | outOfFuel => rw [h] at hk; cases hk
+  · exact fuel_irrelevant (wCfg .builtin) 5 50 _ _ (by decide) (by
+      intro h
+      have hk : (provide (wCfg .builtin) 5 (.iter .list wBool) (.iter .tuple wInt)).kind? = some .iterable := by decide
+      rw [h] at hk; cases hk)
 
 /-! ### Non-vacuity: concrete evaluations of the model (tests, not theorems) -/
 
